@@ -86,7 +86,13 @@ func FailoverConfig(options ...Option) (config Config) {
 	config.OnFailure = func(ctx context.Context) {
 		clientContext := core.GetClientContext(ctx)
 		urls := clientContext.Client().URLs
-		clientContext.URL = urls[getIndex(&index, int64(len(urls)))]
+		next := urls[getIndex(&index, int64(len(urls)))]
+		if next == clientContext.URL && len(urls) > 1 {
+			// the index is shared by all calls and may have come round to
+			// the server that has just failed this one
+			next = urls[getIndex(&index, int64(len(urls)))]
+		}
+		clientContext.URL = next
 	}
 	config.OnRetry = func(ctx context.Context) time.Duration {
 		clientContext := core.GetClientContext(ctx)
